@@ -56,6 +56,44 @@ BIN_A = ["lv {} (argv 0)", "le {} (just 1)", "ld {} (just 1)", "seq {} (just 1)"
 BIN_B = ["lv (just 1) {}", "le (jerr 2) {}", "ld (jdone) {}", "seq (just 1) {}", "fin (just 1) {}", "wa (just 1) {}", "sw (just 1) {}", "any (jdone) {}"]
 
 
+class QueryProbePart:
+    """receiver-query plumbing probes (harness/evt/queryprobe.cpp) for algorithms outside the calculus (retry_when source /
+    trigger / restarted source, when_all_range elements, repeat_effect_until) plus controls: a probe leaf in every child
+    position must see the root receiver's answers to a noexcept custom query, a NON-noexcept custom query, get_allocator
+    and a stoppable stop token.  Model-independent: the expectation is the C12 statement."""
+    name = "queryprobe"
+    EXPECTED = ["retry_when.source#1", "retry_when.trigger#1", "retry_when.source#2", "when_all_range.elem0#1", "when_all_range.elem1#1",
+                "repeat_effect_until.source#1", "repeat_effect_until.source#2", "let_error.source#1", "let_error.handler#1", "let_done.source#1",
+                "let_done.handler#1", "finally.source#1", "finally.completion#1", "sequence.first#1", "sequence.second#1", "stop_when.source#1",
+                "stop_when.trigger#1", "materialize.child#1"]
+
+    def run(self, tier, seed, verdict, cov, driver):
+        t0 = time.time()
+        try:
+            exe = vlib.build_plain(os.path.join(vlib.VERIF, "harness", "evt", "queryprobe.cpp"), ["inplace_stop_token.cpp"], (), None,
+                                   sanitize="address,undefined", name="queryprobe")
+        except vlib.BuildError as e:
+            verdict.add("queryprobe:build", "query probes do not build against the current tree: " + str(e)[-1500:], dict(stream=self.name), found_input=False)
+            return
+        r = subprocess.run([exe], capture_output=True, text=True, timeout=300)
+        lines = [l for l in r.stdout.split("\n") if l.strip()]
+        if r.returncode != 0:
+            verdict.add("queryprobe: sanitizer abort", "the query probes aborted: " + r.stderr[-1500:], dict(stream=self.name, stderr=r.stderr[-3000:], completed=lines))
+        got = {l.split(" ", 1)[0]: l.split(" ", 1)[1] for l in lines if " " in l}
+        want = "tag=42 label=root alloc=9 stoppable=1"
+        for pos in self.EXPECTED:
+            cov["evaluations"] += 1
+            if pos not in got:
+                verdict.add(f"queryprobe: {pos}: child never started", "the probe in this position was not started", dict(stream=self.name, output=lines))
+                continue
+            cov["traces_validated_against_impl"] += 1
+            if got[pos] != want:
+                verdict.add(f"queryprobe: {pos.split('#')[0]}: receiver query not forwarded to this child", f"{pos}: saw `{got[pos]}`, the root receiver answers `{want}`",
+                            dict(stream=self.name, position=pos, saw=got[pos], expected=want))
+        cov["samples"].append(dict(stream=self.name, output=lines[:3]))
+        cov["parts_wall_s"][self.name] = round(time.time() - t0, 1)
+
+
 def stacks(tier, seed):
     """every adaptor in every position of stacks up to depth 3 (quick) / 4 (thorough) above a probe leaf"""
     wrappers = [f"({u} {{}})" for u in UN] + [f"({b})" for b in BIN_A + BIN_B]
@@ -79,7 +117,7 @@ def stacks(tier, seed):
 
 
 def run(tier, seed, replay=None):
-    parts = [EventPart("evt", report_crashes=False, extra_cases=stacks, n_quick=1500), AllocProbePart()]
+    parts = [EventPart("evt", report_crashes=False, extra_cases=stacks, n_quick=1500), AllocProbePart(), QueryProbePart()]
     return run_check(
         "C12", tier, seed, ["UnifexModel.Props.C12"], parts,
         rule="ENUMERATED: every one of 28 adaptor forms (12 unary, 8 binary with the probe as first child, 8 with the probe as second child) in every position of "
@@ -87,9 +125,11 @@ def run(tier, seed, replay=None):
              "its receiver; plus random expressions (see C05); every observation is compared with the Lean calculus",
         assumptions=["the user-defined query CPO stands for every receiver query forwarded by the generic tag_invoke(CPO, const R&) overload (get_scheduler, get_allocator, custom); "
                      "get_stop_token is covered by C04",
+                     "algorithms outside the calculus (retry_when, when_all_range, repeat_effect_until) are covered only by model-independent probes (queryprobe.cpp): a probe leaf in every child position, "
+                     "four queries including a non-noexcept one",
                      "get_allocator is additionally observed directly: the root receiver answers with a counting allocator (id 5) that every leaf must see and from which allocate() must take "
                      "its memory (monitors alloc-query-lost / alloc-foreign / alloc-live in evt.cpp); allocator-taking entry points (spawn_detached, spawn_future, allocate under with_allocator; "
                      "direct and piped forms) are checked by model-independent probes (allocprobe.cpp), not modelled"],
-        trusted_extra=["harness/evt/evt.cpp (probe leaf, type-erased children declare the custom query and get_allocator)", "harness/evt/allocprobe.cpp", "tools/evt.py"],
+        trusted_extra=["harness/evt/evt.cpp (probe leaf, type-erased children declare the custom query and get_allocator)", "harness/evt/allocprobe.cpp", "harness/evt/queryprobe.cpp", "tools/evt.py"],
         explanation="Theorems (Props/C12): queries_forwarded (every leaf start in every run carries the documented answer: the root's or the innermost with_query_value's), "
                     "only_with_query_value_replaces, with_query_value_replaces, root_answer_everywhere; invariant TagInv proved for every algorithm clause (Calc/TagInv.lean).")
